@@ -155,15 +155,10 @@ impl MT101 {
                             .parse_optional_variant_field::<Field50OrderingCustomerFGH>("50")?;
                     }
                     _ => {
-                        // Unknown variant - try instructing party first, then ordering customer
-                        if let Ok(Some(field)) =
-                            parser.parse_optional_variant_field::<Field50InstructingParty>("50")
-                        {
-                            instructing = Some(field);
-                        } else {
-                            ordering = parser
-                                .parse_optional_variant_field::<Field50OrderingCustomerFGH>("50")?;
-                        }
+                        // Any other option is not allowed for field 50 here: report it
+                        // (the parser rejects a value that does not belong to the option read)
+                        instructing =
+                            parser.parse_optional_variant_field::<Field50InstructingParty>("50")?;
                     }
                 }
             }
